@@ -138,10 +138,14 @@ impl Property for C09 {
                                         out.max(&format!("work:{}", base), w2);
                                         a
                                     }
-                                    Run::Budget if *base == "rec" && !(non_growing(&case.pg.program) && non_growing_fields(&case.pg.program)) => {
-                                        // growing programs make the recursive solver's search tree legitimately
-                                        // exponential in max_size (it terminates, e.g. after 5e5 units): not judged
-                                        out.bump("rec:budget_exceeded_on_growing_program(not judged)");
+                                    Run::Budget if !(non_growing(&case.pg.program) && non_growing_fields(&case.pg.program) && finite_answers(&case.pg.program)) => {
+                                        // Growing where-clauses / fields and generative recursive impls give unbounded
+                                        // answer sets: both solvers then legitimately enumerate everything below the size
+                                        // limit, which is exponential in max_size when two constructors (or a duplicated
+                                        // where-clause) branch — it terminates (measured: 5e5 .. >3e6 units) but no fixed
+                                        // budget separates it from a runaway. Not judged for the budget; panics and
+                                        // crashes on these programs are still violations.
+                                        out.bump(&format!("{}:budget_exceeded_on_unbounded_program(not judged)", base));
                                         continue;
                                     }
                                     Run::Budget => {
